@@ -75,6 +75,13 @@ pub fn race_mutations() -> Vec<(Mutation, Option<Mutation>)> {
         ("root/a", "../outside/landing/a"),
         ("root/etc", "/mnt/w/etc"),
         ("root/a/b/c/d", "../../../../../secret"),
+        // names the *library* is about to create (mkdir_all("a/b/c/d/e/f"), create_file("a/b/c/new")):
+        // the exchange only takes effect in the windows after the creation
+        ("root/a/b/c/d/e", "/mnt/w/outside/landing"),
+        ("root/a/b/c/d/e", "../../../../../outside/landing/a"),
+        ("root/a/b/c/d/e/f", "/mnt/w/outside"),
+        ("root/a/b/c/new", "/mnt/w/outside/secret"),
+        ("root/a/x", "/mnt/w/outside/landing"),
     ] {
         let park = format!("outside/landing/parked-{}", path.replace('/', "_"));
         v.push((Mutation::SwapInSymlink { path: path.into(), target: target.into(), park: park.clone() }, Some(Mutation::Exchange { a: path.into(), b: park })));
